@@ -889,6 +889,7 @@ pub fn run(ctx: &mut Ctx) {
     ctx.flush_model("C12-marlin-sonic");
     scheme_run::<generic::Ipa>(ctx, &schemas, n);
     scheme_run::<generic::Pst13>(ctx, &schemas, n);
+    pst13_degree_zero_keys(ctx);
     ctx.flush_model("C12-pst13");
     scheme_run::<generic::Hyrax>(ctx, &schemas, n);
     scheme_run::<generic::UniLigero>(ctx, &schemas, ctx.n(2, 10));
@@ -908,4 +909,45 @@ fn ser_bytes<T: CanonicalSerialize>(x: &T) -> Vec<u8> {
     let mut v = vec![];
     let _ = x.serialize_compressed(&mut v);
     v
+}
+
+/// Keys trimmed to supported degree 0 (constant polynomials only) are keys `trim` hands out: they must survive
+/// a round trip in every mode like all other keys (D28: `Valid::check` of the PST13 verifier key refused them).
+fn pst13_degree_zero_keys(ctx: &mut Ctx) {
+    for i in 0..ctx.n(2, 6) {
+        let id = format!("C12/pst13-degree-zero-key/{}", i);
+        if !ctx.selected(&id) {
+            continue;
+        }
+        let mut rng = rng_for(ctx.seed, "C12/pst13-degree-zero-key", i as u64);
+        let (d, nv) = (1 + i % 3, 1 + i % 3);
+        let keys = guarded(|| {
+            let pp = generic::Pst13PC::setup(d, Some(nv), &mut rng).ok()?;
+            generic::Pst13PC::trim(&pp, 0, 0, None).ok()
+        });
+        let (ck, vk) = match keys {
+            Ok(Some(k)) => k,
+            _ => {
+                // `trim` refusing degree 0 is a consistent answer too: nothing to round-trip
+                ctx.rep.case("pst13 trim(0) refused", Some("pst13-degree-zero-key/refused".into()));
+                continue;
+            }
+        };
+        for (c, cname) in COMPRESS.iter() {
+            for (v, vname) in [(Validate::Yes, "validated"), (Validate::No, "unvalidated")] {
+                let mut b = vec![];
+                let ok_vk = vk.serialize_with_mode(&mut b, *c).is_ok()
+                    && matches!(<VK<generic::Pst13> as CanonicalDeserialize>::deserialize_with_mode(&b[..], *c, v), Ok(ref x) if { let mut b2 = vec![]; x.serialize_with_mode(&mut b2, *c).is_ok() && b2 == b });
+                let mut b = vec![];
+                let ok_ck = ck.serialize_with_mode(&mut b, *c).is_ok()
+                    && matches!(<CK<generic::Pst13> as CanonicalDeserialize>::deserialize_with_mode(&b[..], *c, v), Ok(ref x) if { let mut b2 = vec![]; x.serialize_with_mode(&mut b2, *c).is_ok() && b2 == b });
+                if !ok_vk || !ok_ck {
+                    ctx.rep.expect_fail(&id, "pst13/degree-zero-key-round-trip",
+                        &format!("keys from MarlinPST13::trim(pp, 0, ..) do not survive a {} {} round trip (verifier key ok: {}, committer key ok: {})", cname, vname, ok_vk, ok_ck),
+                        format!("# scheme: pst13\n# case: {}\n# seed: {}\n# setup(max_degree {}, {} variables), trim(pp, 0, 0, None), serialize, deserialize ({}, {})\n", id, ctx.seed, d, nv, cname, vname));
+                }
+            }
+        }
+        ctx.rep.case(&format!("pst13 degree-zero keys d={} nv={} round trips", d, nv), Some(format!("pst13-degree-zero-key/{}/{}", d, nv)));
+    }
 }
